@@ -63,6 +63,20 @@ def check_key(ctx, jwk, rep, extra, rng):
             ctx.count("kids_other_digest")
             if k.kid != want:
                 ctx.violation("auto-kid-not-thumbprint", f"key class selecting {digest}: auto kid {k.kid!r} != its RFC 7638 thumbprint {want!r}", case)
+    # another digest selected on the very key object whose thumbprint was computed before (and back again)
+    for digest in ("sha384", "sha512", "sha256"):
+        ctx.ev()
+        key.thumbprint_digest_method = digest
+        t = call(key.thumbprint)
+        ctx.count("thumbprints")
+        ctx.count("digest_changed_on_same_object")
+        if t.ok and t.value != ref.thumbprint(digest):
+            ctx.violation("thumbprint-differs-from-rfc7638:digest-selected-after-an-earlier-thumbprint", f"thumbprint() = {t.value!r} after selecting {digest} on a key object "
+                          f"whose thumbprint had been computed before; RFC 7638 ({digest}) = {ref.thumbprint(digest)!r} [{rep}]", case)
+    try:
+        del key.thumbprint_digest_method
+    except AttributeError:
+        pass
     # kid assignment
     explicit = (extra or {}).get("kid")
     before = key.kid
@@ -228,6 +242,36 @@ def auto_kid_generation(ctx):
                 ctx.violation("keyset-key-without-kid", "a key exported from a key set has no kid", {})
 
 
+def oct_text_secrets(ctx):
+    """a symmetric secret given as text: the key material is the UTF-8 octets of exactly that text (white space at the edges included), so the thumbprint
+    and the automatic kid are those of the same octets given as bytes or as a JWK"""
+    j = J.load()
+    import warnings
+    from refjose.prim import b64u_enc
+    for text in ("hunter2", " hunter2", "hunter2\n", "\thunter2 \r\n", "  ", "pass word", "\u00a0secret\u00a0", "\u2003wide\u2003", "se\ncret", "\x0bvt\x0c", "\x1csep\x1f", "pä€\n"):
+        octets = text.encode("utf-8")
+        want = RefKey.from_jwk({"kty": "oct", "k": b64u_enc(octets)}).thumbprint()
+        for via, f in (("OctKey.import_key(str)", lambda: j.OctKey.import_key(text)), ("OctKey.import_key(bytes)", lambda: j.OctKey.import_key(octets)),
+                       ("JWKRegistry.import_key(str, 'oct')", lambda: j.JWKRegistry.import_key(text, "oct")),
+                       ("OctKey.import_key(jwk)", lambda: j.OctKey.import_key({"kty": "oct", "k": b64u_enc(octets)})),
+                       ("KeySet member", lambda: j.KeySet([j.OctKey.import_key(text)]).keys[0])):
+            ctx.ev()
+            with warnings.catch_warnings():
+                warnings.simplefilter("ignore")
+                k = call(f)
+            ctx.count("thumbprints")
+            ctx.count("text_secret_cases")
+            ctx.nontrivial(("text-secret", text, via))
+            if not k.ok:
+                ctx.open("text-secret-refused")
+                continue
+            t = call(k.value.thumbprint)
+            call(k.value.ensure_kid)
+            if not t.ok or t.value != want or k.value.kid != want:
+                ctx.violation("thumbprint-differs-from-rfc7638:text-secret", f"{via} of the secret {text!r}: thumbprint {t.value if t.ok else t.exc!r}, kid {k.value.kid!r}; RFC 7638 of "
+                              f"its octets {octets!r} is {want!r}", {"text_secret": text, "via": via})
+
+
 def run_shard(ctx):
     J.load()
     rng = ctx.rng
@@ -235,6 +279,8 @@ def run_shard(ctx):
         auto_kid_generation(ctx)
     if ctx.shard == 1:
         caller_dict_reused(ctx, rng)
+    if ctx.shard == 2:
+        oct_text_secrets(ctx)
     work = []
     for kind in list(K.KINDS) + list(K.UNUSUAL_RSA):
         for rep in K.REPS:
@@ -273,6 +319,8 @@ REQUIRE = [("thumbprints", 400, "thumbprints compared"), ("kids", 120, "kid assi
 
 def replay(ctx, case):
     J.load()
+    if "text_secret" in case:
+        return oct_text_secrets(ctx)
     if "jwk" in case and case["jwk"].get("kty"):
         check_key(ctx, case["jwk"], case.get("rep", "jwk-public"), case.get("extra"), ctx.rng)
     else:
